@@ -690,7 +690,7 @@ def check_C06(tier, seed):
              "ERASE, DEFINT/SNG/DBL/STR, SWAP of same and mixed types, CLEAR; VarsTyped, InBounds, SwapAtomic are "
              "checked on the specification; every transition is a session after each command of which the whole "
              "variable store of the interpreter (probe) must equal the specified one",
-        vm_cfgs=[])
+        vm_cfgs=[("MC_VMM06.tla", "MC_VMM06_%s.cfg" % tier)], vm_space="the same menu of direct statements")
 
 
 RULES = {
@@ -877,7 +877,9 @@ def check_C15(tier, seed):
              "bare with endpoints on, between, before and after existing lines, inverted ranges and numbers above 65529; "
              "ListExact, DeleteExact, LineExact are action properties; every transition is a session ending in a full "
              "LIST whose text must equal the specified listing; plus seeded random long histories over 0..65529",
-        extra_sessions=[("rnd", extra)], vm_cfgs=[])
+        extra_sessions=[("rnd", extra)], vm_cfgs=[("MC_VMM15.tla", "MC_VMM15_%s.cfg" % tier)],
+        vm_space="the same operations (LIST and DELETE as opcodes over the implementation's listing; the commands of the "
+                 "open finding delete-full-range-is-bare are not compared there)")
 
 
 def check_C20(tier, seed):
@@ -1046,6 +1048,24 @@ def lex_mutations(seed, n):
     return cases
 
 
+def lex_layouts():
+    """indentation and runs of blanks: the blank(s) after the line number, between tokens, before and after the
+    statement separator, at the end of the line (the listed text must be a fixed point whatever the spacing)"""
+    cases = []
+    bodies = ["PRINT I", "A=1", "REM x", "FOR I=1 TO 3", "IF A THEN 10", "PRINT \"a  b\";X", "'c", "DATA 1, 2", "GOTO 10"]
+    for n in ("1", "20", "65529"):
+        for k in range(0, 6):
+            for body in bodies:
+                cases.append(n + " " * k + body)
+    for gap in ("  ", "   ", "\t", " \t ", "    "):
+        for body in ("PRINT%sI", "A%s=%s1", "FOR%sI=1%sTO%s3", "IF A%sTHEN%s10", "PRINT 1%s:%sPRINT 2", "10 PRINT%s1%s", "10%sREM%sx%s",
+                     "PRINT%s\"a\"%s;%sX", "10 A$%s=%s\"q\"%s+%sB$"):
+            cases.append(body.replace("%s", gap))
+            cases.append("30 " + body.replace("%s", gap))
+            cases.append("30" + gap + body.replace("%s", gap))
+    return [{"R": "lex", "x": [ord(c) for c in t]} for t in cases]
+
+
 def replay_cases_stage(pid, name, cases):
     st = Stage()
     d = common.outdir(pid)
@@ -1072,6 +1092,7 @@ def check_C05(tier, seed):
     for cfg in ("MC_C05_%s.cfg" % tier, "MC_C05_%s_b.cfg" % tier):
         stages.append(tlc_replay_stage("C05", "MC_C05.tla", cfg, timeout=6000))
     stages.append(replay_cases_stage("C05", "long", lex_mutations(seed, 3000 if tier == "quick" else 60000)))
+    stages.append(replay_cases_stage("C05", "layout", lex_layouts()))
     return finish("C05", tier, seed, "model_checking", stages, t0,
                   rule="TLC enumerates every string up to the bound over the lexically significant alphabet (digits, point, "
                        "exponent letters in both cases, hex letters, keyword-forming letters, suffixes, &, H, quote, remark "
@@ -1080,7 +1101,8 @@ def check_C05(tier, seed):
                        "string with the model's tokens and listed text; the harness feeds each to the real lexer / lister / "
                        "parser and checks the property's relations (same number, same parse or rejected in both, fixed point "
                        "for lines that parse, string literals and remark text preserved); plus seeded long lines (rendered "
-                       "programs damaged at token level). A difference between model scanner and implementation alone is "
+                       "programs damaged at token level) and a fixed family of layouts (0-5 blanks after the line number, runs "
+                       "of blanks and tabs between tokens, around separators and at the end). A difference between model scanner and implementation alone is "
                        "counted as model_divergence, never as a violation; non-trivial = lines that parse",
                   assumptions=["column ranges are removed from the Debug form of ASTs before they are compared",
                                "the harness comparator is trusted"])
